@@ -65,6 +65,27 @@ class Ctx:
                                   violated=r["violated"], constants=consts))
         return r
 
+    def tlc_many(self, jobs, timeout=900, heap="6g"):
+        """Runs several exhaustive TLC jobs concurrently (dicts with module,
+        consts, invariants, name), sharing the cores. Returns the results in order."""
+        import concurrent.futures
+        w = max(2, NCPU // max(1, len(jobs)))
+
+        def one(j):
+            cfg = bgen.cfg_text(j["consts"], spec="Spec", invariants=j["invariants"], properties=(),
+                                extra=("VIEW " + j["view"]) if j.get("view") else "")
+            return vlib.run_tlc(self.scratch, j["module"], cfg, workers=w, timeout=timeout, name=j["name"],
+                                heap=heap, files=mc_files())
+        with concurrent.futures.ThreadPoolExecutor(max_workers=len(jobs)) as ex:
+            res = list(ex.map(one, jobs))
+        for j, r in zip(jobs, res):
+            self.states += r["states"]
+            self.transitions += r["generated"]
+            self.tlc_runs.append(dict(name=j["name"], states=r["states"], generated=r["generated"],
+                                      wall=round(r["wall"], 1), timed_out=r["timed_out"],
+                                      violated=r["violated"], constants=j["consts"]))
+        return res
+
     def add_violation(self, v):
         """v: dict with at least prop, why; plus signature fields and replay data."""
         self.__dict__.setdefault("allviol", []).append(v)
@@ -330,6 +351,13 @@ def inproc_stream_consts(req, resp, ns, nr, nh, hdr=2, trl=1, statuses="{0, 1}",
             "Statuses": statuses, "Closers": closers, "Known <-": "KnownOpen"}
 
 
+def http_stream_consts(req, resp, ns, nr, nh, hdr=1, trl=1, statuses="{0, 1}", closers='{"cs", "cs2"}', cancel=1,
+                       kinds='{"cancel", "deadline"}'):
+    return {"ReqStreamC": bgen.tla_bool(req), "RespStreamC": bgen.tla_bool(resp), "NS": ns, "NR": nr,
+            "NH": nh, "MaxCancel": cancel, "CancelKinds": kinds, "MaxHdr": hdr, "MaxTrl": trl,
+            "Statuses": statuses, "Closers": closers, "Known <-": "KnownOpen"}
+
+
 def mc_files():
     """MC modules, with the set of open deviations taken from known_findings.json."""
     out = {}
@@ -342,14 +370,24 @@ def mc_files():
     return out
 
 
+def _tick(ctx, what):
+    """phase timings, kept in the evidence"""
+    now = time.time()
+    ph = ctx.extra.setdefault("phase_wall_s", {})
+    ph[what] = round(now - ctx.__dict__.get("_t", now), 1)
+    ctx._t = now
+
+
 def family_a(ctx, focus):
     """focus: dict steering the exploration for the property under check."""
+    ctx._t = time.time()
     ctx.build()
+    _tick(ctx, "build")
     q = ctx.quick
     seed = ctx.seed
     ctx.assumptions += [
         "single sender goroutine and single receiver goroutine per direction (gRPC's own rule)",
-        "HTTP scripts are half-duplex and close the send side before relying on replies (net/http shows a reply only after the request body ended)",
+        "over HTTP/1.1 a reply becomes visible only after the request body has ended and the handler cannot read the request after its first reply bytes (net/http); free-running HTTP scripts are half-duplex, the behaviours generated from the HttpStream model are not",
         "metadata keys are lower-case and do not collide with the transport's own headers; plain values are printable ASCII without blanks at the ends (pinned findings cover the excluded classes)",
         "interning projection (proto.Equal, byte equality of metadata, status.Convert) is trusted; TLC decides which value may appear where",
     ]
@@ -357,26 +395,46 @@ def family_a(ctx, focus):
     #    L1 => L0, no panic, nothing stuck), all three streaming kinds
     invs = ["TypeOK", "NoPanic", "Refines", "C05_NoStuck"]
     budgets = focus.get("budgets_q" if q else "budgets_t", (1, 2, 2) if q else (2, 2, 3))
+    jobs = []
     for (rq, rs) in STREAM_KINDS:
-        consts = inproc_stream_consts(rq, rs, *budgets)
-        r = ctx.tlc("MCInprocStream", consts, invariants=invs, name="L1-inproc-%s" % bgen.kind_of(rq, rs),
-                    timeout=300 if q else 1200, view="ViewNoEv")
-        if r["violated"]:
-            handle_model_counterexample(ctx, r, bgen.kind_of(rq, rs))
-        elif not r["ok"] and not r["timed_out"]:
-            raise vlib.Infra("TLC failed on InprocStream:\n" + r["stdout"][-3000:])
+        jobs.append(dict(module="MCInprocStream", consts=inproc_stream_consts(rq, rs, *budgets), invariants=invs,
+                         name="L1-inproc-%s" % bgen.kind_of(rq, rs), view="ViewNoEv",
+                         kind=bgen.kind_of(rq, rs), tr="inproc", model="InprocStream"))
+    # 1b. the same for the L1 model of the HTTP stream (client stream with its
+    #     reader goroutine, server stream, net/http environment)
+    one, two = ('{"cs"}', '{"cancel"}'), ('{"cs", "cs2"}', '{"cancel", "deadline"}')
+    hcfgs = focus.get("hcfgs_q" if q else "hcfgs_t",
+                      [((1, 2, 2), one)] if q else [((1, 2, 2), two), ((1, 3, 3), one), ((2, 2, 2), one)])
+    for hb, (closers, kinds) in hcfgs:
+        for (rq, rs) in STREAM_KINDS:
+            jobs.append(dict(module="MCHttpStream", consts=http_stream_consts(rq, rs, *hb, closers=closers, kinds=kinds),
+                             invariants=invs, name="L1-http-%s-%d%d%d" % ((bgen.kind_of(rq, rs),) + tuple(hb)),
+                             view="ViewNoEv", kind=bgen.kind_of(rq, rs), tr="httpmem", model="HttpStream"))
     ucon = {"NH": 3 if q else 4, "MaxHdr": 2, "MaxTrl": 1, "Outcomes": '{"resp", "nilresp", "err"}',
             "CancelKinds": '{"cancel"}', "FixClosed": "TRUE", "FixDecode": "TRUE", "Known <-": "KnownOpen"}
-    r = ctx.tlc("MCInprocUnary", ucon, invariants=["TypeOK", "Refines", "C05_NoStuck", "C06_NoReadAfterReturn"],
-                name="L1-inproc-unary", timeout=300)
-    if r["violated"]:
-        acts = bgen.parse_actions(r["stdout"])
-        v = run_scripts(ctx, [bgen.unary_script(acts, "cex-unary-%d" % i, seed + i) for i in range(60)], "cex-unary", shards=1)
-        if not v:
-            raise vlib.Infra("TLC counterexample on InprocUnary is not reproducible on the real code: the model is wrong\n"
-                             + r["stdout"][-1500:])
-    elif not r["ok"]:
-        raise vlib.Infra("TLC failed on InprocUnary:\n" + r["stdout"][-3000:])
+    jobs.append(dict(module="MCInprocUnary", consts=ucon, name="L1-inproc-unary", model="InprocUnary",
+                     invariants=["TypeOK", "Refines", "C05_NoStuck", "C06_NoReadAfterReturn"]))
+    if q:
+        results = ctx.tlc_many(jobs, timeout=600)
+    else:
+        results = [ctx.tlc(j["module"], j["consts"], invariants=j["invariants"], name=j["name"], timeout=1500,
+                           view=j.get("view")) for j in jobs]
+    for j, r in zip(jobs, results):
+        if j["model"] == "InprocUnary":
+            if r["violated"]:
+                acts = bgen.parse_actions(r["stdout"])
+                v = run_scripts(ctx, [bgen.unary_script(acts, "cex-unary-%d" % i, seed + i) for i in range(60)],
+                                "cex-unary", shards=1)
+                if not v:
+                    raise vlib.Infra("TLC counterexample on InprocUnary is not reproducible on the real code: "
+                                     "the model is wrong\n" + r["stdout"][-1500:])
+            elif not r["ok"]:
+                raise vlib.Infra("TLC failed on InprocUnary:\n" + r["stdout"][-3000:])
+        elif r["violated"]:
+            handle_model_counterexample(ctx, r, j["kind"], tr=j["tr"], model=j["model"])
+        elif not r["ok"] and not r["timed_out"]:
+            raise vlib.Infra("TLC failed on %s:\n%s" % (j["model"], r["stdout"][-3000:]))
+    _tick(ctx, "L1 exhaustive")
     # 2. behaviours generated from the model, replayed into the real code
     scripts = []
     ucon2 = dict(ucon, NH=4, CancelKinds='{"cancel", "deadline"}')
@@ -401,6 +459,16 @@ def family_a(ctx, focus):
                 scripts.append(bgen.stream_script(b, kind, "httpmem", "sim-httpmem-%s-%d" % (kind, j), seed * 100003 + j))
     ctx.rules.append("behaviours of the L1 model InprocStream (TLC -simulate) reduced to Start/Cancel steps and replayed "
                      "under the quiescence scheduler on inprocgrpc and on httpgrpc over the in-memory transport")
+    nhsim = focus.get("nhsim_q" if q else "nhsim_t", 100 if q else 1500)
+    for i, (rq, rs) in enumerate(STREAM_KINDS):
+        consts = http_stream_consts(rq, rs, 2, 3, 4, hdr=2, trl=2, statuses="{0, 1, 2}")
+        bs = bgen.simulate(ctx.scratch, "MCHttpStream", consts, nhsim, 90, seed * 13 + i, "hs%d" % i, files=mc_files())
+        kind = bgen.kind_of(rq, rs)
+        for j, b in enumerate(bs):
+            scripts.append(bgen.stream_script(b, kind, "httpmem", "sim-http-%s-%d" % (kind, j), seed * 100019 + j))
+    ctx.rules.append("behaviours of the L1 model HttpStream (TLC -simulate), half- and full-duplex, replayed under the "
+                     "quiescence scheduler on httpgrpc over the in-memory transport")
+    _tick(ctx, "L1 simulate")
     # 3. randomized free-running scripts on every transport (data dimension,
     #    concurrency, cancellation races)
     n = focus.get("nfree_q" if q else "nfree_t", 120 if q else 3000)
@@ -418,9 +486,13 @@ def family_a(ctx, focus):
     if rv:
         raise vlib.Infra("L0 rejects a trace of the standard gRPC transport (specification bug): %s" %
                          json.dumps({k: rv[0].get(k) for k in ("prop", "why", "kind", "ev")}))
+    _tick(ctx, "ref calibration")
     run_scripts(ctx, scripts, "main")
+    _tick(ctx, "scripts on the real code + B-mon")
     run_pinned(ctx)
+    _tick(ctx, "pinned")
     conformance(ctx, "main")
+    _tick(ctx, "B-conf")
 
 
 def conf_consts(flags):
@@ -429,33 +501,55 @@ def conf_consts(flags):
             "Statuses": "{0, 1, 2}", "Closers": '{"cs", "cs2"}', "Known": "{}"}
 
 
+def http_conf_consts(flags):
+    return {"ReqStreamC": bgen.tla_bool(flags[0]), "RespStreamC": bgen.tla_bool(flags[1]), "NS": 60, "NR": 60, "NH": 60,
+            "MaxCancel": 1, "CancelKinds": '{"cancel", "deadline"}', "MaxHdr": 20, "MaxTrl": 20,
+            "Statuses": "{0, 1, 2}", "Closers": '{"cs", "cs2"}', "Known": "{}"}
+
+
 CONF_KINDS = {"bidi": (True, True), "cstream": (True, False), "sstream": (False, True)}
 
 
 def conformance(ctx, name):
-    """B-conf: the recorded in-process stream runs must be behaviours of the L1
-    model (silent internal steps, events matched with their arguments). A run
-    the model cannot explain is MODEL-DRIFT: reported, never a verdict."""
+    """B-conf: the recorded stream runs must be behaviours of the L1 models
+    (silent internal steps, events matched with their arguments): in-process
+    runs of InprocStream, HTTP runs (in-memory transport and loopback TCP) of
+    HttpStream. A run the model cannot explain is MODEL-DRIFT: reported, never
+    a verdict."""
     d = ctx.scratch.path("run-" + name)
     files = sorted(os.path.join(d, f) for f in os.listdir(d)
                    if f.startswith("t") and ".ndjson" in f and not f.endswith((".meta", ".journal")))
     files = [f for f in files if os.path.getsize(f) > 0]
     if not files:
         return
-    r = vlib.conform(ctx.scratch, "TraceInprocStream", files, CONF_KINDS, conf_consts, name,
-                     max_runs=40 if ctx.quick else 400)
-    ctx.states += r["states"]
-    ctx.extra["l1_conformance"] = dict(runs=r["total"], accepted=r["accepted"], rejected=len(r["rejected"]),
-                                       rejected_runs=r["rejected"][:20])
-    for run in r["rejected"][:5]:
-        print("MODEL-DRIFT: run %s of the in-process stream is not a behaviour of InprocStream" % run)
-        ctx.drift.append("run %s not explained by InprocStream" % run)
-    # the binding binds: the same runs with one logged field altered must all be rejected
-    c = vlib.conform(ctx.scratch, "TraceInprocStream", files, CONF_KINDS, conf_consts, name + "-corrupt",
-                     max_runs=15, corrupt=True)
-    ctx.extra["l1_binding_demo"] = dict(corrupted_runs=c["total"], wrongly_accepted=c["accepted"])
-    if c["accepted"]:
-        raise vlib.Infra("B-conf accepted %d corrupted traces: the trace specification does not bind" % c["accepted"])
+    specs = (("TraceInprocStream", "InprocStream", ("inproc",), conf_consts, "l1_conformance"),
+             ("TraceHttpStream", "HttpStream", ("http",), http_conf_consts, "l1_http_conformance"))
+    tasks = []
+    with cf.ThreadPoolExecutor(max_workers=4) as ex:
+        for module, model, trs, consts, key in specs:
+            tasks.append((model, key, False, ex.submit(
+                vlib.conform, ctx.scratch, module, files, CONF_KINDS, consts, name + "-" + trs[0],
+                max_runs=40 if ctx.quick else 400, trs=trs)))
+            # the binding binds: the same runs with one logged field altered must all be rejected
+            tasks.append((model, key, True, ex.submit(
+                vlib.conform, ctx.scratch, module, files, CONF_KINDS, consts, name + "-" + trs[0] + "-corrupt",
+                max_runs=15, corrupt=True, trs=trs)))
+    for model, key, corrupt, fut in tasks:
+        r = fut.result()
+        ctx.states += r["states"]
+        if corrupt:
+            ctx.extra[key.replace("conformance", "binding_demo")] = dict(corrupted_runs=r["total"],
+                                                                         wrongly_accepted=r["accepted"])
+            if r["accepted"]:
+                raise vlib.Infra("B-conf (%s) accepted %d corrupted traces: the trace specification does not bind"
+                                 % (model, r["accepted"]))
+            continue
+        ctx.extra[key] = dict(runs=r["total"], accepted=r["accepted"], rejected=len(r["rejected"]),
+                              rejected_runs=[dict(run=x, stuck_at=r["stuck"].get(x)) for x in r["rejected"][:20]])
+        for run in r["rejected"][:5]:
+            print("MODEL-DRIFT: run %s is not a behaviour of %s (stuck at %s)" %
+                  (run, model, json.dumps(r["stuck"].get(run))[:300]))
+            ctx.drift.append("run %s not explained by %s" % (run, model))
 
 
 def half_duplex_ok(actions):
@@ -471,16 +565,17 @@ def half_duplex_ok(actions):
     return True
 
 
-def handle_model_counterexample(ctx, r, kind):
+def handle_model_counterexample(ctx, r, kind, tr="inproc", model="InprocStream"):
     """A TLC counterexample on L1 is a lead: replay its schedule on the real
     code; B-mon decides. Not reproducible => the model is wrong => exit 2."""
     acts = bgen.parse_actions(r["stdout"])
-    sc = bgen.stream_script(acts, kind, "inproc", "cex-%s" % kind, ctx.seed)
-    v = run_scripts(ctx, [dict(sc, id="cex-%s-%d" % (kind, i), seed=ctx.seed + i) for i in range(40)], "cex-" + kind, shards=1)
+    sc = bgen.stream_script(acts, kind, tr, "cex-%s" % kind, ctx.seed)
+    v = run_scripts(ctx, [dict(sc, id="cex-%s-%d" % (kind, i), seed=ctx.seed + i) for i in range(40)],
+                    "cex-%s-%s" % (tr, kind), shards=1)
     if not v:
-        raise vlib.Infra("TLC counterexample on InprocStream (%s, %s) is not reproducible on the real code: "
-                         "the model is wrong\n%s" % (kind, r["violated"], r["stdout"][-1500:]))
-    ctx.drift.append("L1 counterexample for %s reproduced on the real code: %s" % (kind, r["violated"]))
+        raise vlib.Infra("TLC counterexample on %s (%s, %s) is not reproducible on the real code: "
+                         "the model is wrong\n%s" % (model, kind, r["violated"], r["stdout"][-1500:]))
+    ctx.drift.append("L1 counterexample of %s for %s reproduced on the real code: %s" % (model, kind, r["violated"]))
 
 
 def run_pinned(ctx):
